@@ -19,6 +19,7 @@ REGISTRY = {
     "C06": "transform",
     "C07": "invariance",
     "C08": "constructors",
+    "C09": "metric",
     "C12": "purity",
 }
 
